@@ -1,7 +1,13 @@
 import IncrVerif.Proofs.Life1
 /-!
-# Observer lifecycle over whole histories, part 2: effects, recompute, handlers (`Pres Dis`);
-the two observer phases, `stabilise` and every API action (`Pres Life`)
+# Observer lifecycle over whole histories, part 2: effects, recompute, handlers; the two observer
+phases, `stabilise` and every API action
+
+* generic in `R` (`ObsLocal R`): operator closures, `childChanged`, `maybeChangeValue`, …
+* `DisLocal R`: `ObsLocal R` for which `disallow_future_use` is a step; then everything user effects can
+  do is a step: `runEffects`, `recomputeOne`, `recompute`, `drainHeap` (generic in `R`).
+* `Pres Dis` for `runAll`, `stabiliseEnd`; `Pres Life` for `addNewObservers`,
+  `unlinkDisallowedObservers`, `stabilise`, `stepAction` (every action).
 -/
 namespace IncrVerif.Proofs.Life
 open IncrVerif.Engine IncrVerif.Proofs.Obs
@@ -135,30 +141,46 @@ theorem PresD.disallowFutureUse (o) : Pres Dis (disallowFutureUse o) := by
     · rename_i hst; exact Dis.disInUse s o ob hob hst
     · exact Dis.refl _
     · exact Dis.refl _
-life_leaf PresD.disallowFutureUse
 
-/-! ## effects, operator closures -/
-theorem PresD.runEffectBasic (env e) : Pres Dis (runEffectBasic env e) := by
+/-- relations for which `disallow_future_use` is a step: everything user effects can do is then a step -/
+class DisLocal (R : State → State → Prop) : Prop extends ObsLocal R where
+  disallow : ∀ o, Pres R (disallowFutureUse o)
+
+instance : DisLocal Dis := ⟨PresD.disallowFutureUse⟩
+
+theorem PresE.disallowFutureUse {R : State → State → Prop} [DisLocal R] (o) :
+    Pres R (disallowFutureUse o) := DisLocal.disallow o
+life_leaf PresE.disallowFutureUse
+
+/-- `Dis` does not look at the log -/
+theorem PresD.logEv_any (e) : Pres Dis (Engine.logEv e) := by
+  unfold Engine.logEv; exact Pres.modify fun _ => Dis.of_eq rfl rfl rfl
+life_leaf PresD.logEv_any
+
+/-! ## effects, recompute: generic in the relation -/
+section
+variable {R : State → State → Prop} [DisLocal R]
+theorem PresD.runEffectBasic (env e) : Pres R (runEffectBasic env e) := by
   unfold Engine.runEffectBasic; lpres
 life_leaf PresD.runEffectBasic
-theorem PresD.runEffects (env fuel effs arg) : Pres Dis (runEffects env fuel effs arg) := by
+theorem PresD.runEffects (env fuel effs arg) : Pres R (runEffects env fuel effs arg) := by
   unfold Engine.runEffects; lpres
 life_leaf PresD.runEffects
-/-! ## recompute -/
 set_option maxHeartbeats 1000000 in
-theorem PresD.recomputeOne (env fuel n) : Pres Dis (recomputeOne env fuel n) := by
+theorem PresD.recomputeOne (env fuel n) : Pres R (recomputeOne env fuel n) := by
   unfold Engine.recomputeOne; lpres
 life_leaf PresD.recomputeOne
-theorem PresD.recompute (env fuel n) : Pres Dis (recompute env fuel n) := by
+theorem PresD.recompute (env fuel n) : Pres R (recompute env fuel n) := by
   induction fuel generalizing n with
   | zero => unfold Engine.recompute; lpres
   | succ fuel ih => unfold Engine.recompute; lpres; all_goals exact ih _
 life_leaf PresD.recompute
-theorem PresD.drainHeap (env fuel) : Pres Dis (drainHeap env fuel) := by
+theorem PresD.drainHeap (env fuel) : Pres R (drainHeap env fuel) := by
   induction fuel with
   | zero => unfold Engine.drainHeap; lpres
   | succ fuel ih => unfold Engine.drainHeap; lpres; all_goals exact ih
 life_leaf PresD.drainHeap
+end
 
 /-! ## handlers -/
 
